@@ -783,6 +783,60 @@ func c17(c *Ctx) {
 		r.Check("graphite:deletion-by-class", deleted == 1, nf.Pos(), fmt.Sprintf("%d deletions by a character class in normalizeMetricName (a hand-written filter is not evaluated by this rule)", deleted))
 	})
 
+	c.Rule("C17.R14", "the JSON encoders write the aggregated value: no backend configures a lossy number encoding (jsoniter's MarshalFloatWith6Digits, also part of ConfigFastest) - 'exactly once with the aggregated value' needs the float written in full", 1, func(r *Rule) {
+		nCfg := 0
+		var paths []string
+		for p := range w.SSAPkgs {
+			if strings.HasPrefix(p, Mod+"/pkg/backends/") {
+				paths = append(paths, p)
+			}
+		}
+		sort.Strings(paths)
+		for _, p := range paths {
+			sp := w.SSAPkgs[p]
+			var fns []*ssa.Function
+			if init := sp.Func("init"); init != nil {
+				fns = append(fns, init)
+			}
+			for _, fn := range w.ModuleFuncs() {
+				if fnPkgPath(fn) == p {
+					fns = append(fns, fn)
+				}
+			}
+			rel := strings.TrimPrefix(p, Mod+"/")
+			for _, fn := range fns {
+				eachInstr(fn, func(in ssa.Instruction) {
+					switch x := in.(type) {
+					case *ssa.Store:
+						fa, ok := x.Addr.(*ssa.FieldAddr)
+						if !ok {
+							return
+						}
+						nm := namedOf(derefType(fa.X.Type()))
+						if nm == nil || nm.Obj().Pkg() == nil || !strings.HasSuffix(nm.Obj().Pkg().Path(), "json-iterator/go") || nm.Obj().Name() != "Config" {
+							return
+						}
+						f := fieldName(nm, fa.Field)
+						if f == "MarshalFloatWith6Digits" {
+							k, isC := x.Val.(*ssa.Const)
+							r.Check("json-config:"+rel+":full-precision", isC && k.Value != nil && k.Value.ExactString() == "false", x.Pos(), "MarshalFloatWith6Digits is set: values are rounded to 6 decimals on the wire")
+						}
+					case *ssa.Call:
+						if strings.HasSuffix(calleeName(x), "json-iterator/go.Config).Froze") || strings.HasSuffix(calleeName(x), ".Config).Froze") {
+							nCfg++
+							r.Check(fmt.Sprintf("json-config:%s:site#%d", rel, nCfg), true, x.Pos(), "a jsoniter configuration is frozen here; its fields are checked")
+						}
+					case *ssa.UnOp:
+						if g, ok := x.X.(*ssa.Global); ok && g.Pkg != nil && strings.HasSuffix(g.Pkg.Pkg.Path(), "json-iterator/go") && g.Name() == "ConfigFastest" {
+							r.Check("json-config:"+rel+":not-fastest", false, x.Pos(), "jsoniter.ConfigFastest rounds floats to 6 decimals")
+						}
+					}
+				})
+			}
+		}
+		r.Check("json-config:sites", nCfg >= 1, token.NoPos, fmt.Sprintf("%d jsoniter configurations in the backends", nCfg))
+	})
+
 	c.Rule("C17.R10", "the statsd relay withholds exactly the server's own counters: a counter is skipped if and only if its name starts with \"statsd.\" (with the dot: statsdaemon.x, statsd_exporter.y are ordinary series)", 2, func(r *Rule) {
 		pm := w.Func("pkg/backends/statsdaemon", "(*Client).processMetrics")
 		if pm == nil {
